@@ -250,7 +250,7 @@ func cmdCheck(args []string) int {
 	os.MkdirAll(smtDir, 0o755)
 	p.u.SolveAll(obls, smtDir, timeoutS, thorough, *par)
 	// second chance for a few undecided obligations (no model, no verdict): the same queries again on an idle machine
-	// with three times the time limit. A proof close to the limit otherwise depends on machine load; a real failure
+	// with twice the time limit. A proof close to the limit otherwise depends on machine load; a real failure
 	// stays undecided (and many undecided obligations are not a load problem: no retry then).
 	var again []*Obligation
 	for _, o := range obls {
@@ -262,7 +262,9 @@ func cmdCheck(args []string) int {
 		for _, o := range again {
 			first := o.Result
 			o.Result = nil
-			r := p.u.Solve(o, smtDir, 3*timeoutS, false)
+			p.u.retryLite = true
+			r := p.u.Solve(o, smtDir, 2*timeoutS, false)
+			p.u.retryLite = false
 			if r.Status == "unsat" {
 				r.Backend += "+retry"
 				r.Ms += first.Ms
